@@ -52,13 +52,16 @@ LEVEL['C01'] = dict(
          'own ellipsoid/projection.',
     note=PARTIAL + 'Here: |E − E_exact|, |N − N_exact| ≤ 0.2 mm (search against an exact-TM oracle by complex quadrature).' + TRUST + ' Spec/Krueger.lean derived by tools/derive_krueger.py.')
 LEVEL['C02'] = dict(
-    technique='Lean 4 theorems over the regenerated model (β series vs reference with explicit deviation polynomial, exact Gauss–Schreiber inverse, Newton target/derivative via HasDerivAt, loop-exit lemma, hemisphere mirror, validation iff) + bitwise translator validation',
+    technique='Lean 4 theorems over the regenerated model (β series vs reference with explicit deviation polynomial, exact Gauss–Schreiber inverse, Newton target/derivative via HasDerivAt, loop-exit lemma, hemisphere mirror, validation iff; the stand-alone converter regenerated from Standalone/mga2gda.py and proved to be the library inverse with three Newton steps) + bitwise translator validation',
     text='Machine-checked for all inputs: β coefficients equal the reference series except an explicit O(n^6) deviation of '
          'β2 bounded by 0.14 n^6; the inverse Gauss–Schreiber step exactly inverts the forward one; the Newton loop solves '
          'the forward conformal-latitude equation (ftn = 0 iff forward formula, f1tn is its derivative), exits within the '
          'cap with the stated condition; north/south mirror gives opposite latitude, equal longitude/psf, opposite '
-         'convergence; validation iff; psf call site.',
-    note=PARTIAL + 'Here: 0.2 mm / 2e-9 deg / 1e-10 deg closure bounds and the stand-alone converter (search only).' + TRUST)
+         'convergence; validation iff; psf call site. Stand-alone converter (regenerated): same rectifying radius, β '
+         'polynomials and eccentricities as the library on the ellipsoid (6378137, 1/298.25722210088) by definitional '
+         'unfolding; its longitude IS the library\'s; its latitude is the third iterate of the library\'s Newton map from '
+         'the library\'s starting value.',
+    note=PARTIAL + 'Here: 0.2 mm / 2e-9 deg closure bounds; for the stand-alone converter the 1e-10 deg agreement itself (three Newton steps versus the exit iterate, 12th digit of 1/f) is search only.' + TRUST)
 LEVEL['C10'] = dict(
     technique='Lean 4 theorems over the regenerated model (p + iq = derivative of the complex Krüger series by HasDerivAt, factorisation of the point scale, convergence terms and sign rule, call sites pass the call\'s ellipsoid and projection) + bitwise translator validation',
     text='Machine-checked for all inputs: psf/convergence depend only on the call\'s ellipsoid and projection and psf is '
@@ -162,14 +165,16 @@ LEVEL['C12'] = dict(
     note='PARTIAL: binary64 accumulation per node is covered by search and correspondence, not proved; the flat bound of the '
          'plan is false in general (multipliers scale errors) and is replaced by errB. Hand model: trusted via correspondence.')
 LEVEL['C17'] = dict(
-    technique='Lean 4 theorems over a hand model of ntv2reader.py generic in its arithmetic (bilinear blend, Hermite/bi-quadratic reproduction with the code\'s cinv by decide/ring, byte-offset induction, exact node addressing of the executed seek/read sequence, finest sub-grid for any iteration order) + bitwise correspondence on synthetic grid files',
+    technique='Lean 4 theorems over the interpolation kernels regenerated from ntv2reader.py (proved equal to the model kernels) and over a hand model of the reader generic in its arithmetic (bilinear blend, Hermite/bi-quadratic reproduction with the code\'s cinv by decide/ring, byte-offset induction, exact node addressing of the executed seek/read sequence, finest sub-grid for any iteration order) + bitwise correspondence on synthetic grid files',
     text='Machine-checked: bilinear is the exact blend of the four nodes the code reads, reproduces node values and linear '
          'fields; bicubic (code\'s 16×16 cinv = inverse Hermite basis over ℤ) reproduces node values, linear and bi-quadratic '
          'fields where its stencil fits; the executed seeks/reads return exactly the 4 / 16 nodes of the selected sub-grid '
          '(stencil inside iff 1 ≤ row ≤ nrows−3 ∧ 1 ≤ col ≤ ncols−3, else bilinear); row/col/num_cols arithmetic over ℚ; '
          'data offsets by induction; finest containing sub-grid for any set order; outside ⇒ None / ValueError; shift signs.',
     note='PARTIAL: binary64 evaluation and header decoding are covered by correspondence only. Known finding: bi-quadratic '
-         'fields are not reproduced in the outermost ring (bilinear fallback). Hand model: trusted via correspondence.')
+         'fields are not reproduced in the outermost ring (bilinear fallback). The two interpolation kernels are regenerated '
+         'from the source on every run and proved equal to the model kernels; the rest of the hand model (file parsing, '
+         'sub-grid selection, node addressing) is trusted via correspondence and source pinning.')
 LEVEL['C18'] = dict(
     technique='Lean 4 refinement theorems over a kernel-evaluable hand model of the SINEX editors (model ∘ render = render ∘ abstract operation, byte-exact, by induction over lines/rows) + byte-level correspondence with gnss.py on generated files and clocks',
     text='Machine-checked over all well-formed abstract solutions and all clocks: remove_stns writes exactly the rendering of '
